@@ -602,13 +602,38 @@ func resolveSvc(r *core.Run, rule string) *svcAnchors {
 		}
 		return false
 	})
-	a.Serve = one("serve(starts workers)", func(fn *ssa.Function) bool {
-		for _, c := range core.Calls(fn) {
-			if core.IsGo(c) && a.Worker != nil && c.Common().StaticCallee() == a.Worker {
-				return true
+	// serve: the innermost function that, itself or through its private helpers, both starts the
+	// workers with go and writes the state word (the run's initialisation; the go loop may sit in
+	// a startWorkers helper)
+	isServeCand := func(fn *ssa.Function) bool {
+		starts, writes := false, false
+		for _, h := range p.Helpers(fn) {
+			for _, c := range core.Calls(h) {
+				if core.IsGo(c) && a.Worker != nil && c.Common().StaticCallee() == a.Worker {
+					starts = true
+				}
+				if !core.IsGo(c) && len(c.Common().Args) > 0 {
+					if f, ok := core.FieldOf(c.Common().Args[0]); ok && f == a.State {
+						writes = true
+					}
+				}
+			}
+			if storesTo(h, a.State) {
+				writes = true
 			}
 		}
-		return false
+		return starts && writes
+	}
+	a.Serve = one("serve(starts workers)", func(fn *ssa.Function) bool {
+		if !isServeCand(fn) {
+			return false
+		}
+		for _, h := range p.Helpers(fn) {
+			if h != fn && isServeCand(h) {
+				return false
+			}
+		}
+		return true
 	})
 	a.ok = a.Enqueue != nil && a.Worker != nil && a.Drain != nil && a.Close != nil && a.Serve != nil &&
 		a.Mu.Name != "" && a.Cond.Name != "" && a.WG.Name != "" && a.State.Name != "" && a.NC.Name != "" && a.InCh.Name != ""
